@@ -53,12 +53,15 @@ class BaseInterval(ABC):
         result : ndarray
             The transformed values.
         """
-        vmin, vmax = self.get_limits(values)
+        # limits as Python floats and integer data as float64 before any arithmetic, so that
+        # narrow integer dtypes neither wrap around nor reject limits outside their range
+        vmin, vmax = (float(v) for v in self.get_limits(values))
+        values = np.asanyarray(values)
+        if not np.issubdtype(values.dtype, np.inexact):
+            values = values.astype(np.float64)
 
         # subtract vmin
         values = np.subtract(values, vmin)
-        if np.issubdtype(values.dtype, np.integer):
-            values = values.astype(np.float64)
         # divide by interval
         if (vmax - vmin) != 0.0:
             np.true_divide(values, vmax - vmin, out=values)
@@ -82,7 +85,7 @@ class BaseInterval(ABC):
         result : ndarray
             The transformed values.
         """
-        vmin, vmax = self.get_limits(values)
+        vmin, vmax = (float(v) for v in self.get_limits(values))
 
         values = np.multiply(values, vmax - vmin)
         np.add(values, vmin, out=values)
@@ -117,8 +120,8 @@ class ManualInterval(BaseInterval):
 
         # Filter out invalid values (inf, nan)
         values = values[np.isfinite(values)]
-        vmin = np.min(values) if self.vmin is None else self.vmin
-        vmax = np.max(values) if self.vmax is None else self.vmax
+        vmin = float(np.min(values)) if self.vmin is None else self.vmin
+        vmax = float(np.max(values)) if self.vmax is None else self.vmax
 
         return vmin, vmax
 
@@ -145,8 +148,8 @@ class CenteredInterval(BaseInterval):
 
         values = np.asarray(values).ravel()
         values = values[np.isfinite(values)]
-        vmin = np.min(values)
-        vmax = np.max(values)
+        vmin = float(np.min(values))
+        vmax = float(np.max(values))
 
         half_range = np.maximum(np.abs(vmin - self.vcenter), np.abs(vmax - self.vcenter))
 
@@ -177,6 +180,8 @@ class QuantileInterval(BaseInterval):
 
         # Filter out invalid values (inf, nan)
         values = values[np.isfinite(values)]
+        if not np.issubdtype(values.dtype, np.inexact):
+            values = values.astype(np.float64)  # np.quantile interpolates in the data's dtype
         vmin, vmax = np.quantile(values, (self.lower_quantile, self.upper_quantile))  # type: ignore
 
         return vmin, vmax
